@@ -82,7 +82,7 @@ extern "C" int vf_run_case(const uint8_t * data, size_t size)
    static CompleteSetupSystem * css = NULL; if (css == NULL) css = new CompleteSetupSystem;
    BS bs(data, size); g_bs = &bs; g_now = 1000; g_allowCbMut = true; g_cbDestroys = 0;
    for (size_t i=0;i<g_nodes.size();i++) delete g_nodes[i]; g_nodes.clear();
-   uint64_t h = 11; bool multiDepthPulse = false, cbMutCase = false, deferredCase = false; uint32 cycles = 0, totalPulses = 0; std::string trace; const bool wantTrace = vf::WantSample();
+   uint64_t h = 11; bool multiDepthPulse = false, cbMutCase = false, deferredCase = false, invalidatedBeforePulse = false; uint32 cycles = 0, totalPulses = 0; std::string trace; const bool wantTrace = vf::WantSample();
    Mgr mgr; const int N = 7; for (int i=0;i<N;i++) g_nodes.push_back(new TNode(i)); g_nodes[0]->parent = -2;
    int steps = 0;
    while(!bs.done() && steps++ < 80)
@@ -104,8 +104,11 @@ extern "C" int vf_run_case(const uint8_t * data, size_t size)
             const uint64 m = mgr.GetMin(*g_nodes[0], g_now);
             uint64 expect = NEVER; for (int i=0;i<N;i++) if (IsAttached(i)) {TNode * n = g_nodes[i]; if (!n->valid) FAIL("attached node %d was not asked for its time before the wait", i); if (n->req < expect) expect = n->req;}
             if (m != expect) FAIL("root reports wake-up %llu, min of requested times is %llu", (unsigned long long)m, (unsigned long long)expect);
-            const uint8_t adv = bs.u8()%4; if (adv == 0) g_now += 1; else if ((adv == 1)&&(m != NEVER)&&(m > g_now)) g_now = m; else if (adv == 2) g_now += 30; else g_now += 200;
-            g_pulsedThisRound.clear(); g_touched.assign(N, false); g_mutThisRound = 0; g_mayBeOnStack.clear(); if (vf::Verbose()) {fprintf(stderr, "ROUND now=%llu:", (unsigned long long)g_now); for (int i=0;i<N;i++) fprintf(stderr, " [%d p=%d v=%d req=%lld]", i, g_nodes[i]->parent, (int)g_nodes[i]->valid, (long long)g_nodes[i]->req); fprintf(stderr, "\n");}
+            const uint8_t ab = bs.u8(); const uint8_t adv = ab%4; bool invalidatedNow = false;
+            // what an event loop's I/O handlers do between the wait and the pulse: a node (the root included) takes back the time it asked for
+            if ((ab>>2)%8 == 7) {const int who = ((ab>>5)&1) ? 0 : (int)(1+(ab>>6)%(N-1)); TNode * n = g_nodes[who]; if (n->alive) {n->InvalidatePulseTime(true); n->valid = false; invalidatedBeforePulse = true; invalidatedNow = (who != 0);   /* the root has no ancestors to re-queue: taking back its own time defers nobody */}}
+            if (adv == 0) g_now += 1; else if ((adv == 1)&&(m != NEVER)&&(m > g_now)) g_now = m; else if (adv == 2) g_now += 30; else g_now += 200;
+            g_pulsedThisRound.clear(); g_touched.assign(N, false); g_mutThisRound = 0; if (invalidatedNow) g_mutThisRound++;   /* like a callback mutation, this re-queues the node's ancestors: due nodes below them may be deferred to the follow-up cycle */ g_mayBeOnStack.clear(); if (vf::Verbose()) {fprintf(stderr, "ROUND now=%llu:", (unsigned long long)g_now); for (int i=0;i<N;i++) fprintf(stderr, " [%d p=%d v=%d req=%lld]", i, g_nodes[i]->parent, (int)g_nodes[i]->valid, (long long)g_nodes[i]->req); fprintf(stderr, "\n");}
             mgr.DoPulse(*g_nodes[0], g_now);
             std::set<int> got(g_pulsedThisRound.begin(), g_pulsedThisRound.end());
             g_rounds++; if (g_mutThisRound) {g_roundsWithMut++; cbMutCase = true;}
@@ -135,7 +138,7 @@ extern "C" int vf_run_case(const uint8_t * data, size_t size)
    }
    vf::Count("pulse_cycles", cycles); vf::Count("callbacks_fired", totalPulses);
    if (multiDepthPulse) vf::Count("case_pulse_fired_nodes_at_two_depths");
-   if (cbMutCase) vf::Count("case_with_callback_mutation"); if (g_cbDestroys) vf::Count("case_callback_destroyed_a_node_off_the_call_stack");
+   if (cbMutCase) vf::Count("case_with_callback_mutation"); if (g_cbDestroys) vf::Count("case_callback_destroyed_a_node_off_the_call_stack"); if (invalidatedBeforePulse) vf::Count("case_node_invalidated_between_wait_and_pulse");
    if (deferredCase) vf::Count("case_with_deferred_due_node");
    if ((multiDepthPulse)||(cbMutCase)) {vf::NonTrivial(h); if (wantTrace) vf::Sample(trace);}
    return 0;
